@@ -445,3 +445,139 @@ Proof.
   split; [|split; [simpl; discriminate | vm_compute; discriminate]].
   intros p Hp. simpl in Hp. destruct Hp as [<-|[]]. vm_compute. intros [H|[H|[]]]; discriminate.
 Qed.
+
+(* ---- ObjectStore / stub: a configuration keeps the object it was first given --------------- *)
+Lemma stub_keeps {obj} (fresh o : obj) st n : retrieve st n = Some o -> stub fresh st n = (st, o).
+Proof. unfold stub. intros ->. reflexivity. Qed.
+
+Lemma stub_retrieve {obj} (fresh : obj) st n :
+  retrieve (fst (stub fresh st n)) n = Some (snd (stub fresh st n)) /\
+  forall m, m <> n -> retrieve (fst (stub fresh st n)) m = retrieve st m.
+Proof.
+  unfold stub. destruct (retrieve st n) as [o|] eqn:E; simpl.
+  - split; auto.
+  - rewrite Nat.eqb_refl. split; auto. intros m Hm.
+    destruct (Nat.eqb n m) eqn:Enm; auto. apply Nat.eqb_eq in Enm. congruence.
+Qed.
+
+(* asking again (the gathering of a pre-task in postprocess, a later instance() call on the same
+   store) answers the same object and leaves the store alone - whatever the object looks like   *)
+Theorem stub_again : forall {obj} (f1 f2 : obj) st n,
+  stub f2 (fst (stub f1 st n)) n = (fst (stub f1 st n), snd (stub f1 st n)).
+Proof. intros. apply stub_keeps. apply (stub_retrieve f1 st n). Qed.
+
+(* other configurations are never disturbed, so a store built by stub calls only holds at most
+   one object per configuration: the first one                                                 *)
+Fixpoint stubs {obj} (st : ostore obj) (reqs : list (nat * obj)) : ostore obj :=
+  match reqs with [] => st | (n, fresh) :: reqs' => stubs (fst (stub fresh st n)) reqs' end.
+
+Theorem stub_first_wins : forall {obj} (reqs : list (nat * obj)) st n o,
+  retrieve st n = Some o -> retrieve (stubs st reqs) n = Some o.
+Proof.
+  induction reqs as [|[m f] reqs IH]; simpl; intros st n o H; auto.
+  apply IH. destruct (Nat.eq_dec n m) as [->|Hnm].
+  - rewrite (stub_keeps f o st m H). exact H.
+  - rewrite (proj2 (stub_retrieve f st m) n Hnm). exact H.
+Qed.
+
+Theorem store_keeps_first_object : forall (obj : Type),
+  (forall (f1 f2 : obj) st n,
+     stub f2 (fst (stub f1 st n)) n = (fst (stub f1 st n), snd (stub f1 st n))) /\
+  (forall (reqs : list (nat * obj)) st n o,
+     retrieve st n = Some o -> retrieve (stubs st reqs) n = Some o).
+Proof. intros obj. split; [apply @stub_again | apply @stub_first_wins]. Qed.
+
+(* the truth-value variant: a second request for a configuration whose object is falsy answers
+   another object                                                                              *)
+Theorem stub_by_truth_refuted : exists (truthy : nat -> bool) f1 f2 st n,
+  snd (stub_by_truth truthy f2 (fst (stub_by_truth truthy f1 st n)) n)
+  <> snd (stub_by_truth truthy f1 st n).
+Proof. exists (fun o => negb (Nat.eqb o 0)), 0, 1, [], 5. vm_compute. discriminate. Qed.
+
+(* ... while it agrees with stub on stores that only hold truthy objects, up to the redundant
+   re-binding (which is why ordinary classes do not show the difference)                       *)
+Lemma stub_by_truth_truthy {obj} (truthy : obj -> bool) fresh st n :
+  (forall o, retrieve st n = Some o -> truthy o = true) ->
+  snd (stub_by_truth truthy fresh st n) = snd (stub fresh st n) /\
+  forall m, retrieve (fst (stub_by_truth truthy fresh st n)) m = retrieve (fst (stub fresh st n)) m.
+Proof.
+  unfold stub_by_truth, stub. intros H. destruct (retrieve st n) as [o|] eqn:E; simpl.
+  - rewrite (H o eq_refl). simpl. split; auto. intros m.
+    destruct (Nat.eqb n m) eqn:Enm; auto. apply Nat.eqb_eq in Enm. subst. auto.
+  - split; auto.
+Qed.
+
+(* ---- the classes are not an input ------------------------------------------------------- *)
+Lemma fold_opt_ext_eq' {A S} (f g : A -> S -> option S) l :
+  (forall x s, f x s = g x s) -> forall s, fold_opt f l s = fold_opt g l s.
+Proof.
+  intros H. induction l as [|x l IH]; simpl; intros s; auto.
+  rewrite H. destruct (g x s); auto.
+Qed.
+
+Lemma visit_map (g : node -> node) (E : nat -> node -> list edge) cut h :
+  (forall n nd, E n (g nd) = E n nd) ->
+  forall fuel pos n st, visit (map g h) E cut fuel pos n st = visit h E cut fuel pos n st.
+Proof.
+  intros HE. induction fuel as [|f IH]; intros pos n st; simpl; auto.
+  rewrite nth_error_map. destruct (nth_error h n) as [nd|]; simpl; auto.
+  destruct (memb n (visited st)); auto. destruct (cut n); auto.
+  rewrite HE.
+  rewrite (fold_opt_ext_eq' _ (fun e s => visit h E cut f (pos ++ fst e) (snd e) s)); auto.
+Qed.
+
+Lemma walk_map (g : node -> node) E cut h root :
+  (forall n nd, E n (g nd) = E n nd) -> walk (map g h) E cut root = walk h E cut root.
+Proof. intros HE. unfold walk, fuel_bound. rewrite map_length, (visit_map g E cut h HE). reflexivity. Qed.
+
+Lemma node_at_recls f h n :
+  fields (node_at (map (recls f) h) n) = fields (node_at h n) /\
+  pre (node_at (map (recls f) h) n) = pre (node_at h n) /\
+  init (node_at (map (recls f) h) n) = init (node_at h n).
+Proof.
+  unfold node_at. destruct (nth_error h n) as [nd|] eqn:En.
+  - rewrite (nth_error_nth _ _ _ En).
+    assert (En' : nth_error (map (recls f) h) n = Some (recls f nd)) by (rewrite nth_error_map, En; reflexivity).
+    rewrite (nth_error_nth _ _ _ En'). auto.
+  - apply nth_error_None in En. rewrite !nth_overflow; auto. rewrite map_length. exact En.
+Qed.
+
+Theorem instantiate_class_blind : forall f h constructed root,
+  instantiate (map (recls f) h) constructed root = instantiate h constructed root.
+Proof.
+  intros f h c root. unfold instantiate, inst_events.
+  rewrite (walk_map (recls f) (node_edges false) (cut_constructed c) h root) by reflexivity.
+  destruct (walk h (node_edges false) (cut_constructed c) root) as [evs|]; auto.
+  f_equal. f_equal.
+  - apply map_ext. intros ev. unfold object_of. rewrite (proj1 (node_at_recls f h (fst ev))). reflexivity.
+  - f_equal.
+    + apply map_ext. intros ev. unfold post_init_of. rewrite (proj1 (node_at_recls f h (fst ev))). reflexivity.
+    + f_equal. unfold gathered. f_equal. apply flat_map_ext. intros ev.
+      apply (proj1 (proj2 (node_at_recls f h (fst ev)))).
+Qed.
+
+Theorem load_class_blind : forall f h root, load (map (recls f) h) root = load h root.
+Proof.
+  intros f h root. unfold load, ser_order.
+  rewrite (walk_map (recls f) ser_edges (fun _ => false) h root) by reflexivity.
+  destruct (walk h ser_edges (fun _ => false) root) as [evs|]; auto.
+  f_equal. apply map_ext. intros n. unfold def_of.
+  destruct (node_at_recls f h n) as [A [B C]]. rewrite A, B, C. reflexivity.
+Qed.
+
+(* two graphs that differ by the classes only (any classes): same objects, same log *)
+Theorem class_blind : forall h h' constructed root,
+  map (recls (fun _ => 0)) h = map (recls (fun _ => 0)) h' ->
+  instantiate h constructed root = instantiate h' constructed root /\ load h root = load h' root.
+Proof.
+  intros h h' c root E. split.
+  - rewrite <- (instantiate_class_blind (fun _ => 0) h), <- (instantiate_class_blind (fun _ => 0) h'), E. reflexivity.
+  - rewrite <- (load_class_blind (fun _ => 0) h), <- (load_class_blind (fun _ => 0) h'), E. reflexivity.
+Qed.
+
+(* non-vacuity: x_heap with container-like / falsy / by-content classes (as harness/vpk_c13 has them) *)
+Example x_class_blind :
+  let h' := mapi_from (fun i nd => recls (fun _ => i) nd) 4 x_heap in
+  map cls h' = [4; 5; 6; 7; 8; 9; 10] /\
+  instantiate h' [] 0 = instantiate x_heap [] 0 /\ load h' 0 = load x_heap 0.
+Proof. split; [reflexivity|]. apply class_blind. reflexivity. Qed.
